@@ -1014,8 +1014,8 @@ def stage_deccmp(rng, tier, mode, tb, gbin, gmodel, stats, known):
     fa = lambda v, t: Fraction(v) / Fraction(10) ** t[1]
 
     def known_vc(d):
-        k = known.setdefault("values-case-decimal-unification-rounds", {"count": 0, "example": d})
-        k["count"] += 1
+        # fixed by 57d9a50e4: a VALUES column / CASE result over two decimal types that loses a digit or fails is a violation
+        viol.append(dict(d, what="VALUES / CASE over decimals of two types does not return the input values"))
 
     for (a, b, va, vb, n, stmts), r in zip(umeta, common.run_harness(gbin, "sql", ucases, timeout=300)):
         exp = sorted([fa(v, a) for v in va] + [fa(v, b) for v in vb])
